@@ -20,7 +20,7 @@ exit of publish passes rollback_publication and DestinationGuard::drop always re
 error is raised exactly when the opt-in is off; copy_records forwards the record's timestamp and absolute expiry
 unchanged as explicit values. Not decided: record-for-record equality for all legacy images.
 """
-DECIDED = ["read-only source cannot be written", "destination never overwritten; publish by hard_link after verify", "rollback on failure",
+DECIDED = ['the read-only scan masks journaled extents with a cursor over a journal sorted by start sector', 'no failing exit after the destination name is published', "read-only source cannot be written", "destination never overwritten; publish by hard_link after verify", "rollback on failure",
            "ambiguous legacy markers need the opt-in", "timestamp / expiry forwarded unchanged"]
 NOT_DECIDED = ["record-for-record equality with a recovery of the source for all legacy images"]
 ASSUMPTIONS = ["fs::hard_link fails if the destination name exists (POSIX link(2))"]
